@@ -23,7 +23,9 @@ RULE = (
     "victim), 1-2 hosts x 1-2 workers, and one fault: none; or the victim task's body raises (with a message, with an empty message, bare assert) / calls sys.exit(k in {0,1,3}) / "
     "os._exit / SIGKILLs its own process / SIGTERMs or SIGKILLs its host's shm server while holding its inputs, before producing any output, between two yields of a multi-output task, or after its last yield (all outputs published); or the harness "
     "SIGKILLs/SIGTERMs a chosen helper process (worker i, data server, shm server of a chosen host) once the controller has seen k "
-    "events. Oracle: run() ends within the deadline (a time-out is confirmed by a second run with doubled deadline before it counts); "
+    "events. The 37 kinds of fault (10 body faults x 3 positions, 3 helpers x 2 signals, none) are dealt round-robin over the case slots "
+    "of a run, so every kind is sampled at least once per 48 cases; host names carry generated suffixes (up to 28 characters). "
+    "Oracle: run() ends within the deadline (a time-out is confirmed by a second run with doubled deadline on a distant port block before it counts); "
     "if the fault makes a requested output impossible run() ends with an exception; if it returns, every requested value equals the "
     "sequential reference; afterwards, within a grace period, no executor, no descendant process and no /dev/shm/sCasc<host>* segment "
     "of this cluster is left. non-trivial = a fault other than none whose victim was reached (marker file written by the task body / "
@@ -43,7 +45,7 @@ TIERS = {
 MIN_NONTRIVIAL = 2
 MANIFEST = {
     "engine": "realcluster",
-    "technique": "fault-injection testing on real processes: Hypothesis-generated fault plans (task-body faults, helper kills) against a real local cluster, deadline + process-table + /dev/shm oracle",
+    "technique": "fault-injection testing on real processes: Hypothesis-generated, kind-stratified fault plans (task-body faults, helper kills) against a real local cluster, deadline + process-table + /dev/shm oracle",
     "text": "Each generated plan starts a real local cluster in its own session and injects one fault; the harness checks that the "
             "controller's run() terminates (with an error whenever a requested output became impossible, never with a wrong value) and "
             "that afterwards no process of the cluster and none of its shared-memory segments is left.",
